@@ -145,3 +145,8 @@ Proof.
   intros i. do 5 (destruct i as [|i]; [unfold aliases_unique; cbn; repeat constructor; cbn; intuition lia|]).
   unfold aliases_unique. destruct i; cbn; constructor.
 Qed.
+
+Example ex_toesm : to_esm_default (to_esm_node_mode true IFDynamic) true = ModuleExports
+  /\ to_esm_default (to_esm_node_mode false IFDynamic) true = ExportsDefault
+  /\ to_esm_default (to_esm_node_mode false IFDynamic) false = ModuleExports.
+Proof. repeat split. Qed.
